@@ -72,7 +72,7 @@ def WDt.applyPack (w : WDt) (p : Pack) : WDt × List HandlerCall × Option Strin
   if p.error then
     match p.ops with
     | ⟨_, .error code⟩ :: _ => (w, [.errors [clientErrOfPushPull code]], none)
-    | _ => (w, [], some "error pack without ErrorOperation")
+    | _ => (w, [.errors [300]], none)   -- error pack without ErrorOperation: reported as an abort of the server
   else
     -- subscribe pack: the first operation has to be the snapshot operation
     let sub : Option (Option WDt) :=
